@@ -1,3 +1,263 @@
-/-! # C10 — property theorems (stub: not built yet) -/
+import PymtlVerif.Proofs.TCTree
+import PymtlVerif.Proofs.TCWT
+/-!
+# C10 — type-checker widths are the real widths; accepted code has no width errors
+
+Model: `Model/TC.lean` (the RTLIR behavioural type checker: visitor + enforcer), `Model/PyEval.lean`
+(what the simulator computes: Python evaluation with `PythonBits` semantics), `Model/TCSpec.lean`
+(which blocks are *clean*).  `checkE/checkS/checkBlock` return the annotated tree the real checker
+leaves in `node.Type` / `node._is_explicit`; `evalPy/execS` return the Python value or the exception.
+
+The real checker is unsound on several shapes (F4, F12 of DESIGN.md §6 and N1–N4 found while building
+this check); they are excluded by the hypothesis `issuesE Γ e = []` / `issuesS Γ s = []`, and for each
+of them a counter-example to the unrestricted statement is proved below (`*_counterexample`).
+The unrestricted statement would be
+
+    theorem no_width_error_FULL : checkBlock s = .ok r → NoCast s → ShiftsAligned s →
+        ∀ ρ er, execS s ρ = .error er → er ≠ .width ∧ er ≠ .range
+
+and is false (see `F4_counterexample` … `N4_counterexample`).
+-/
 namespace PV.C10
+open PV.TC PV.Bits
+
+/-! ## literal widths -/
+
+/-- an integer literal's inferred width is the least number of bits (at least one) that holds it -/
+theorem literal_min_width (v : Nat) :
+    1 ≤ nbitsOf v ∧ v < 2 ^ nbitsOf v ∧ ∀ w, 1 ≤ w → v < 2 ^ w → nbitsOf v ≤ w :=
+  ⟨nbitsOf_pos v, nbitsOf_fits v, fun w hw h => nbitsOf_least v w hw h⟩
+
+/-- the same function on a non-negative Python int (`nbitsInt` is what both copies of
+    `_get_nbits_from_value` compute on any int) -/
+theorem literal_min_width_int (v : Nat) : nbitsInt (v : Int) = nbitsOf v := nbitsInt_natCast v
+
+/-- on a negative constant `v < -1` the inferred width is the least `w` with `-2^w ≤ v` — one bit
+    short of a two's-complement representation, and `Bits` operators reject negative ints anyway
+    (part of finding F12) -/
+theorem literal_min_width_neg (v : Int) (h : v < -1) :
+    -(2 : Int) ^ nbitsInt v ≤ v ∧ ∀ w : Nat, -(2 : Int) ^ w ≤ v → nbitsInt v ≤ w := by
+  have h1 : ¬ (-1 ≤ v ∧ v ≤ 1) := by omega
+  have h2 : v < 0 := by omega
+  have hv : v = -(v.natAbs : Int) := by omega
+  have hn : 2 ≤ v.natAbs := by omega
+  simp only [nbitsInt, h1, h2, ↓reduceIte]
+  constructor
+  · have := bitLen_fits (v.natAbs - 1)
+    have h3 : v.natAbs ≤ 2 ^ bitLen (v.natAbs - 1) := by omega
+    have h4 : ((v.natAbs : Nat) : Int) ≤ (2 : Int) ^ bitLen (v.natAbs - 1) := by exact_mod_cast h3
+    omega
+  · intro w hw
+    apply bitLen_least
+    have h4 : ((v.natAbs : Nat) : Int) ≤ (2 : Int) ^ w := by omega
+    have h5 : v.natAbs ≤ 2 ^ w := by exact_mod_cast h4
+    omega
+
+/-! ## static width = run-time width -/
+
+/-- **width soundness.**  For an accepted, clean expression, in any simulator state that agrees with the
+    checker's environment: if evaluation yields a `Bits`, its `nbits` is the static width (and the node is
+    explicitly sized); if it yields a Python int, the int fits the static width and the term is not one
+    the analysis calls hard. -/
+theorem width_sound (Γ : Env) (ρ : Rho) (henv : EnvOK Γ ρ) (e : Expr) (t : AT)
+    (h : checkE Γ e = .ok t) (hc : issuesE Γ e = []) :
+    (∀ b, evalPy ρ e = .ok (.bits b) → b.n = t.ann.w ∧ t.ann.ex = true ∧ b.Wf) ∧
+    (∀ k, evalPy ρ e = .ok (.int k) → 0 ≤ k ∧ k < 2 ^ t.ann.w ∧ hardE Γ e = false) := by
+  have hs := expr_safe Γ ρ henv e t h hc
+  constructor
+  · intro b hb; rw [hb] at hs; exact ⟨hs.2.1, hs.1, hs.2.2⟩
+  · intro k hk; rw [hk] at hs; exact ⟨hs.2.1.1, hs.2.1.2, hs.1⟩
+
+/-- every sub-expression of an accepted expression is accepted on its own, in the same environment -/
+theorem subexpr_accepted (Γ : Env) (e : Expr) (t : AT) (h : checkE Γ e = .ok t) :
+    ∀ e' ∈ subs e, ∃ t', checkE Γ e' = .ok t' :=
+  subs_accepted Γ e t h
+
+/-- … and width soundness holds for every sub-expression in a value position (conditions, indices and
+    slice bounds that are plain integer expressions have no width) -/
+theorem width_sound_subexpr (Γ : Env) (ρ : Rho) (henv : EnvOK Γ ρ) (e : Expr) (t : AT)
+    (h : checkE Γ e = .ok t) (hc : issuesE Γ e = []) :
+    ∀ e' ∈ vsubs e, ∃ t', checkE Γ e' = .ok t' ∧
+      ∀ b, evalPy ρ e' = .ok (.bits b) → b.n = t'.ann.w := by
+  intro e' he'
+  obtain ⟨t', ht'⟩ := subs_accepted Γ e t h e' (vsubs_sub_subs e e' he')
+  exact ⟨t', ht', fun b hb => ((width_sound Γ ρ henv e' t' ht' (vsubs_clean Γ e hc e' he')).1 b hb).1⟩
+
+/-- **the annotations the checker leaves behind.**  `nodes e t` pairs every sub-expression with the
+    annotation it carries in the final tree `t` (after all enforcements).  For an explicitly sized node that
+    annotation is exactly the one the sub-expression gets when checked on its own — so by `width_sound`
+    the width shown in `node.Type` of every explicit node is the run-time `nbits`. -/
+theorem explicit_final_width (Γ : Env) (e : Expr) (t : AT) (h : checkE Γ e = .ok t) :
+    ∀ p ∈ nodes e t, ∃ t', checkE Γ p.1 = .ok t' ∧ t'.ann.ex = p.2.ex ∧ t'.ann.val = p.2.val ∧
+      (p.2.ex = true → t'.ann.w = p.2.w) := by
+  intro p hp
+  obtain ⟨t', h1, h2, h3, h4⟩ := nodes_sim Γ e t t h (Sim.refl t) p hp
+  exact ⟨t', h1, h2.symm, h3.symm, fun hex => (h4 (h2 ▸ hex)).symm⟩
+
+/-! ## accepted + clean ⇒ no width error -/
+
+/-- **no width error (expressions).**  `issuesE Γ e = []` bundles the property's own exclusions (no
+    explicit width-changing cast, shift amounts of the shifted value's width) with `ImplicitArithFree`
+    and the other shapes on which the real checker is unsound (see `Model/TCSpec.lean`). -/
+theorem no_width_error (Γ : Env) (ρ : Rho) (henv : EnvOK Γ ρ) (e : Expr) (t : AT)
+    (h : checkE Γ e = .ok t) (hc : issuesE Γ e = []) (er : PyErr) (he : evalPy ρ e = .error er) :
+    er ≠ .width ∧ er ≠ .range := by
+  have hs := expr_safe Γ ρ henv e t h hc
+  rw [he] at hs
+  cases er <;> simp_all [Safe, PyErr.isWidth]
+
+/-- **no width error (statements)**: assignments (`@=` to a signal, a bit, a constant slice), temporaries,
+    `if`, `for` over constant ranges.  The temporaries and loop variables of the state agree with the
+    checker's environment before, and the temporaries agree with the final environment afterwards. -/
+theorem stmt_no_width_error (Γ Γ' : Env) (s : Stmt) (a : AS) (ρ : Rho)
+    (h : checkS Γ s = .ok (Γ', a)) (hc : issuesS Γ s = []) (ht : TmpOK Γ' ρ) (hl : LvOK Γ ρ) :
+    (∀ er, execS s ρ = .error er → er ≠ .width ∧ er ≠ .range) ∧
+    (∀ ρ', execS s ρ = .ok ρ' → TmpOK Γ' ρ' ∧ ρ'.lvs = ρ.lvs) := by
+  have hs := stmt_safe Γ' s Γ Γ' a ρ h hc (ExtT.refl _) ht hl
+  constructor
+  · intro er he; rw [he] at hs
+    cases er <;> simp_all [StmtSafe, PyErr.isWidth]
+  · intro ρ' he; rw [he] at hs; exact hs
+
+/-- **no width error (whole update block)**: a block that passes generation + type check and is clean
+    never raises a bitwidth / truncation error, whatever the signal values are. -/
+theorem block_no_width_error (s : Stmt) (r : Env × AS) (h : checkBlock s = .ok r)
+    (hc : issuesS Env.empty s = []) (sigs : List (Nat × Nat)) (er : PyErr)
+    (he : execS s ⟨sigs, [], []⟩ = .error er) : er ≠ .width ∧ er ≠ .range := by
+  obtain ⟨Γ', a⟩ := r
+  unfold checkBlock at h
+  split at h
+  · cases h
+  · exact (stmt_no_width_error Env.empty Γ' s a ⟨sigs, [], []⟩ h hc
+      (fun t w ex v _ hv => by simp at hv) (fun i w hi => by simp [Env.empty] at hi)).1 er he
+
+/-! ## explicit width mismatches are rejected -/
+
+/-- two explicitly sized operands of different widths: every max-width operator (`+ - * & | ^ %`), every
+    comparison and the if-expression are rejected — the if-expression only when neither branch has the
+    RTLIR data type `Bool` (a comparison): `visit_IfExp` unifies the widths of `Vector` branches only
+    (finding N5, `N5_counterexample`) -/
+theorem explicit_mismatch_rejected (Γ : Env) (l r : Expr) (tl tr : AT)
+    (hl : checkE Γ l = .ok tl) (hr : checkE Γ r = .ok tr)
+    (hle : tl.ann.ex = true) (hre : tr.ann.ex = true) (hw : tl.ann.w ≠ tr.ann.w) :
+    (∀ op : Op, op.isShift = false → checkE Γ (.bin op l r) = .error .type) ∧
+    (∀ op : CmpOp, checkE Γ (.cmp op l r) = .error .type) ∧
+    (∀ (c : Expr) (tc : AT), checkE Γ c = .ok tc → isBoolE Γ l = false → isBoolE Γ r = false →
+      checkE Γ (.ite c l r) = .error .type) := by
+  have hu : unify tl tr = .error .type := by simp [unify, hle, hre, hw]
+  refine ⟨?_, ?_, ?_⟩
+  · intro op hs; simp [checkE, hl, hr, binRule, hs, hu]
+  · intro op; simp [checkE, hl, hr, cmpRule, hu]
+  · intro c tc hc hb1 hb2; simp [checkE, hl, hr, hc, iteRule, hle, hre, hw, hb1, hb2]
+
+/-- an explicitly sized right-hand side whose width differs from the target's is rejected -/
+theorem assign_mismatch_rejected (Γ : Env) (tgt e : Expr) (tt te : AT)
+    (ht : checkE Γ tgt = .ok tt) (he : checkE Γ e = .ok te)
+    (hex : te.ann.ex = true) (hw : te.ann.w ≠ tt.ann.w) :
+    ∃ er, checkS Γ (.asg tgt e) = .error er := by
+  cases hT : isTarget tgt with
+  | false => exact ⟨.type, by simp [checkS, hT]⟩
+  | true => exact ⟨.type, by simp [checkS, hT, ht, he, asgRule, hex, hw]⟩
+
+/-- … and these are exactly the operations that raise the width-mismatch `ValueError` at run time -/
+theorem mismatch_raises (a b : B) (hn : b.n ≠ a.n) :
+    (∀ op : Op, pyBin op (.bits a) (.bits b) = .error .width) ∧
+    (∀ op : CmpOp, pyCmp op (.bits a) (.bits b) = .error .width) ∧
+    liftB (imatmul a (Val.bits b).opnd) = .error .width := by
+  refine ⟨?_, ?_, ?_⟩
+  · intro op; simp [pyBin, Val.opnd, binop, hn, liftR, PyErr.ofBits]
+  · intro op; simp [pyCmp, Val.opnd, cmpop, hn, liftR, PyErr.ofBits]
+  · simp [Val.opnd, imatmul, hn, liftB, PyErr.ofBits]
+
+/-! ## acceptance implies the typing invariant (for C03) -/
+
+/-- `WT Γ e w k` (`Proofs/TCWT.lean`) is the declarative typing judgement "operand widths equal for
+    max-width operators, literals re-sized to the context": an accepted, clean expression is well typed
+    at its static width. -/
+theorem check_implies_WT (Γ : Env) (e : Expr) (t : AT) (h : checkE Γ e = .ok t) (hc : issuesE Γ e = []) :
+    WT Γ e t.ann.w (kindOf t.ann (hardE Γ e)) :=
+  checkE_WT Γ e t h hc
+
+/-- … and for statements: in particular the right-hand side of every assignment is well typed at the
+    width of its target (`WTS`) -/
+theorem check_implies_WT_stmt (Γ Γ' : Env) (s : Stmt) (a : AS) (h : checkS Γ s = .ok (Γ', a))
+    (hc : issuesS Γ s = []) : WTS Γ s :=
+  checkS_WTS s Γ Γ' a h hc
+
+/-! ## the unrestricted statement is false: counter-examples (each replayed on the real code by the check) -/
+
+def raised (r : Except PyErr Rho) : Option PyErr :=
+  match r with
+  | .error e => some e
+  | .ok _ => none
+
+def accepted (s : Stmt) : Bool :=
+  match checkBlock s with
+  | .ok _ => true
+  | .error _ => false
+
+/-- F4: `s.out @= 300` with a 4-bit `out` is accepted; simulation raises -/
+theorem F4_counterexample :
+    accepted (.asg (.sig 0 4) (.num 300)) = true ∧
+    raised (execS (.asg (.sig 0 4) (.num 300)) ⟨[], [], []⟩) = some .range := by decide +kernel
+
+/-- F12: `for i in range(4): s.out @= s.a + (i + 1)` with 2-bit `a`, `out` -/
+theorem F12_counterexample :
+    accepted (.for_ 0 0 4 1 (.asg (.sig 0 2) (.bin .add (.sig 1 2) (.bin .add (.lv 0) (.num 1))))) = true ∧
+    raised (execS (.for_ 0 0 4 1 (.asg (.sig 0 2) (.bin .add (.sig 1 2) (.bin .add (.lv 0) (.num 1)))))
+      ⟨[], [], []⟩) = some .range := by decide +kernel
+
+/-- F12, negative folded constant: `s.out @= s.a + (1 - 2)` (8 bits) -/
+theorem F12_negative_counterexample :
+    accepted (.asg (.sig 0 8) (.bin .add (.sig 1 8) (.bin .sub (.num 1) (.num 2)))) = true ∧
+    raised (execS (.asg (.sig 0 8) (.bin .add (.sig 1 8) (.bin .sub (.num 1) (.num 2)))) ⟨[], [], []⟩)
+      = some .range := by decide +kernel
+
+def n1Block : Stmt :=
+  .seq (.ifs (.sig 1 1) (.tasg 0 (.num 5)) (.tasg 0 (.sig 0 3)))
+       (.asg (.sig 2 3) (.bin .add (.tmp 0) (.tmp 0)))
+
+/-- N1: a temporary assigned a literal in one branch and a signal in the other is recorded as explicit;
+    `t + t` is then typed 3 bits explicit while it is `5 + 5` at run time -/
+theorem N1_counterexample :
+    accepted n1Block = true ∧ raised (execS n1Block ⟨[(1, 1)], [], []⟩) = some .range := by decide +kernel
+
+/-- N2: `s.out @= s.a + (1 if s.c else 200)` (4 bits): the if-expression is typed 1 bit -/
+theorem N2_counterexample :
+    accepted (.asg (.sig 0 4) (.bin .add (.sig 1 4) (.ite (.sig 2 1) (.num 1) (.num 200)))) = true ∧
+    raised (execS (.asg (.sig 0 4) (.bin .add (.sig 1 4) (.ite (.sig 2 1) (.num 1) (.num 200))))
+      ⟨[], [], []⟩) = some .range := by decide +kernel
+
+/-- N3: `s.out @= Bits8( 3 ) + 1` with a 3-bit `out`: the folded constant is re-typed to 3 bits but
+    stays explicit; the run-time value is a `Bits8` (static width ≠ run-time width) -/
+theorem N3_counterexample :
+    accepted (.asg (.sig 0 3) (.bin .add (.cast 8 (.num 3)) (.num 1))) = true ∧
+    raised (execS (.asg (.sig 0 3) (.bin .add (.cast 8 (.num 3)) (.num 1))) ⟨[], [], []⟩) = some .width ∧
+    evalPy ⟨[], [], []⟩ (.bin .add (.cast 8 (.num 3)) (.num 1)) = .ok (.bits ⟨8, 4⟩) := by decide +kernel
+
+/-- N4: `s.out @= (s.a if s.c else 200) + (s.b if s.c else 100)` (8 bits): both operands are typed
+    explicit, both are Python ints when `c` is 0 -/
+theorem N4_counterexample :
+    accepted (.asg (.sig 0 8) (.bin .add (.ite (.sig 3 1) (.sig 1 8) (.num 200)) (.ite (.sig 3 1) (.sig 2 8) (.num 100)))) = true ∧
+    raised (execS (.asg (.sig 0 8) (.bin .add (.ite (.sig 3 1) (.sig 1 8) (.num 200)) (.ite (.sig 3 1) (.sig 2 8) (.num 100))))
+      ⟨[], [], []⟩) = some .range := by decide +kernel
+
+/-- N5: `s.out @= (s.a < s.b) if s.c else s.d` with 1-bit `out` and 8-bit `d`: the comparison branch has data
+    type `Bool`, for which `visit_IfExp` skips the width unification; the if-expression is typed 1 bit -/
+theorem N5_counterexample :
+    accepted (.asg (.sig 0 1) (.ite (.sig 3 1) (.cmp .lt (.sig 1 8) (.sig 2 8)) (.sig 4 8))) = true ∧
+    raised (execS (.asg (.sig 0 1) (.ite (.sig 3 1) (.cmp .lt (.sig 1 8) (.sig 2 8)) (.sig 4 8)))
+      ⟨[], [], []⟩) = some .width := by decide +kernel
+
+/-! ## non-vacuity -/
+
+example : accepted (.asg (.sig 0 8) (.bin .add (.sig 1 8) (.num 255))) = true ∧
+    issuesS Env.empty (.asg (.sig 0 8) (.bin .add (.sig 1 8) (.num 255))) = [] := by decide +kernel
+example : accepted (.for_ 0 0 8 1 (.asg (.idx 2 8 (.lv 0)) (.bin .band (.idx 0 8 (.lv 0)) (.idx 1 8 (.lv 0))))) = true ∧
+    issuesS Env.empty (.for_ 0 0 8 1 (.asg (.idx 2 8 (.lv 0)) (.bin .band (.idx 0 8 (.lv 0)) (.idx 1 8 (.lv 0))))) = [] := by
+  decide +kernel
+example : accepted (.asg (.sig 0 8) (.bin .add (.sig 1 8) (.sig 2 1))) = false := by decide +kernel
+example : issuesS Env.empty (.asg (.sig 0 4) (.num 300)) = [.rhsWide] := by decide +kernel
+example : nbitsOf 255 = 8 ∧ nbitsOf 256 = 9 ∧ nbitsOf 0 = 1 ∧ nbitsOf (2 ^ 64) = 65 := by decide +kernel
+
 end PV.C10
